@@ -379,6 +379,10 @@ def mk_cmp(op, a, b):
     if d.is_const():
         v = d.const_value()
         return const({"==": v == 0, "!=": v != 0, ">": v > 0, ">=": v >= 0}[op])
+    if op in ("==", "!=") and d.den == (((), Fraction(1)),) and all(
+            len(m) <= 1 and all(x[0] == "const" and p == 1 for x, p in m) for m, _c in d.num):
+        # a non-zero combination of distinct symbolic constants: the sides differ
+        return const(op == "!=")
     if op in ("==", "!="):
         # sign normalisation: leading coefficient positive
         if d.num[0][1] < 0:
